@@ -251,6 +251,7 @@ def evalMon (cfg : Cfg) (name : String) (tr : List Item) : Option Bool :=
   | "c03-failure-stops" => some (Afkak.Monitor.C03.failureStopsOk tr)
   | "c03-commit-reports" => some (Afkak.Monitor.C03.commitReportsOk tr)
   | "c13-start-once" => some (Afkak.Monitor.C13.startOnceOk tr)
+  | "c13-fires-once" => some (Afkak.Monitor.C13.firesOnceOk tr)
   | "c13-quiescent" => some (Afkak.Monitor.C13.quiescentOk tr)
   | "c13-shutdown" => some (Afkak.Monitor.C13.shutdownOk cfg.group tr)
   | "c13-shutdown-inproc" => some (Afkak.Monitor.C13.shutdownInprocOk cfg.group tr)
